@@ -259,7 +259,10 @@ def model_access(settings, form, name):
 
 
 WHITELISTS = {'none': [], 'string': ['pub', 'meth', 'alias'], 'regex': [re.compile('^(pub|meth|alias|chi)')],
-              'predicate': [lambda n: n in ('pub', 'meth', 'alias', 'target')]}
+              'predicate': [lambda n: n in ('pub', 'meth', 'alias', 'target')],
+              # entries that also match private names: the underscore rule must hold whatever the whitelist says
+              'regex-broad': [re.compile('p')], 'predicate-all': [lambda n: True],
+              'string-private': ['_priv', '_pmeth', 'pub', '__class__']}
 BLACKLISTS = {'none': [], 'string': ['other', 'meth'], 'regex': [re.compile('oth|^met')],
               'predicate': [lambda n: n.startswith('o') or n == 'pub']}
 REMAPPINGS = {'none': {}, 'name': {'alias': 'target'}, 'name+args': {'alias': ('meth', {'y': 'x'})},
